@@ -222,6 +222,21 @@ def runValget (pl : String) : String :=
   | .ok (v, l, p, items) => s!"{v},{l},{p} " ++ ";".intercalate (items.map showItem')
   | .error e => "EXC:" ++ showExc e
 
+/-- `valgetrt|<payload hex>|<dataK=value or empty>`: construct, optionally assign one item's value, pack -/
+def runValgetRt (pl edit : String) : String :=
+  match valgetDecode (parseHex pl) with
+  | .error e => "EXC:" ++ showExc e
+  | .ok (v, l, p, items) =>
+    let items := match edit.splitOn "=" with
+      | [k, nv] => (items.zipIdx.map fun (c, i) => if k == s!"data{i}" then { c with value := parseInt nv } else c)
+      | _ => items
+    let hdr : Except Exc (List Nat) := do
+      let a ← packU 1 v; let b ← packU 1 l; let c ← packU 2 p; pure (a ++ b ++ c)
+    match hdr, packItems items with
+    | .ok h, .ok bs => toHex (h ++ bs)
+    | .error e, _ => "EXC:" ++ showExc e
+    | _, .error e => "EXC:" ++ showExc e
+
 def encodeOr (t : Table) (vs : List Val) : String :=
   match t.encode vs with
   | .ok bs => toHex bs
@@ -487,6 +502,15 @@ def runFrameFam (steps : String) : String :=
         let f : Frame := if par == "B" then { cls := 0, id := 0, data := parseHex h } else { cls := c.toNat!, id := i.toNat!, data := parseHex h }
         toHex f.toBytes.2
     | _ => "bad-step")
+/-- `framecls|<Class>|<payload hex>`: a frame object of a real message class whose `data` was assigned directly -/
+def runFrameCls (cls pl : String) : String :=
+  match Gen.frameClasses.find? fun e => e.1 == cls with
+  | none => "no-class"
+  | some e =>
+    let f : Frame := { cls := e.2.1, id := e.2.2.1, data := parseHex pl }
+    let (f1, b1) := f.toBytes
+    let (_, b2) := f1.toBytes
+    toHex b1 ++ " " ++ (if b1 == b2 && f1.data == f.data then "same" else "DIFF")
 def runFrameGen (c i len seed mode : String) : String :=
   let f : Frame := { cls := c.toNat!, id := i.toNat!, data := lcgPayload len.toNat! seed.toNat! mode.toNat! }
   let (f1, b1) := f.toBytes
@@ -567,6 +591,8 @@ def handle (line : String) : String :=
   | ["valset", items] => runValset items
   | ["valgetpoll", keys] => runValgetPoll keys
   | ["valget", pl] => runValget pl
+  | ["valgetrt", pl] => runValgetRt pl ""
+  | ["valgetrt", pl, e] => runValgetRt pl e
   | ["gnss", op, sys, bl] => runGnss op sys bl
   | ["gnss", op, sys, bl, _] => runGnss op sys bl
   | "helper" :: rest => runHelper rest
@@ -577,6 +603,7 @@ def handle (line : String) : String :=
   | ["framegen", c, i, l, s, m] => runFrameGen c i l s m
   | ["frameseq", c, i, st] => runFrameSeq c i st
   | ["framefam", st] => runFrameFam st
+  | ["framecls", c, pl] => runFrameCls c pl
   | ["ck", a, b] => runCk a b
   | ["ckrow", a] => runCkRow a
   | ["ckm", a, b] => runCkM a b
